@@ -439,14 +439,14 @@ Proof.
   - eapply sw_cancel_order; eauto.
   - eapply sw_cancel_all; eauto.
   - eapply sw_cancel_mm; eauto.
-  - unfold obind in H. destruct (deposit_req s app owner pid x y) as [[s1 r]| |] eqn:E; try discriminate.
-    injection H as <-. eapply H_deposit_req; eauto.
-  - unfold obind in H. destruct (withdraw_req s app owner pid pc) as [[s1 r]| |] eqn:E; try discriminate.
-    injection H as <-. eapply H_withdraw_req; eauto.
-  - eapply H_farm; eauto.
-  - eapply H_unfarm; eauto.
-  - eapply sw_deposit_and_farm; eauto.
-  - eapply sw_unfarm_and_withdraw; eauto.
+  - unfold obind in H. destruct (deposit_msg s app owner pid cs) as [[s1 r]| |] eqn:E; try discriminate.
+    injection H as <-. destruct (deposit_msg_inv _ _ _ _ _ _ _ E) as (x & y & E'). eapply H_deposit_req; eauto.
+  - unfold obind in H. destruct (withdraw_msg s app owner pid dn pc) as [[s1 r]| |] eqn:E; try discriminate.
+    injection H as <-. apply withdraw_msg_inv in E. eapply H_withdraw_req; eauto.
+  - apply farm_msg_inv in H. eapply H_farm; eauto.
+  - apply unfarm_msg_inv in H. eapply H_unfarm; eauto.
+  - destruct (deposit_and_farm_msg_inv _ _ _ _ _ _ _ _ _ _ H) as (x & y & H'). eapply sw_deposit_and_farm; eauto.
+  - apply unfarm_and_withdraw_msg_inv in H. eapply sw_unfarm_and_withdraw; eauto.
   - injection H as <-. apply sw_begin_block, HI.
   - injection H as <-. apply sw_end_block, HI.
 Qed.
